@@ -17,6 +17,11 @@ compared with the model.  Supporting oracles that do not use the model: pack(unp
 repeated pack() is idempotent and leaves the fields as assigned, unpack(pack(values)) gives
 values mod 2^w.
 
+Histories (every part): pack of packet A fails part-way through a run (a non-integer or unset bit field at
+        position j, A's other bit fields all-ones), then another packet of the same class (fresh, brand-new with
+        defaults, obtained from unpack, existing before the failure, or A itself repaired) is packed and compared
+        with the model of ITS OWN values; a failing pack must leave A's fields reading what was assigned.
+
 Part A  all 128 compositions of 8 bits x 3 code-generation option sets x all 256 byte patterns
         (unpack, round trip, pack from the decoded values) + every field x every value class on pack.
 Part T  (thorough) all 32768 compositions of 16 bits (exec, generation off) + a sample of them
@@ -46,6 +51,11 @@ REQUIRED = (
     "repack_compared", "reparse_compared",
     "truncations_rejected", "nonint_packeterror",
     "bad_total_rejected", "bad_total_rejected_embedded",
+    "failed_packs_observed", "own_fields_after_failed_pack_checked", "packs_after_failed_pack_compared",
+    "packs_after_failed_pack_fresh", "packs_after_failed_pack_brand_new_defaults", "packs_after_failed_pack_unpacked",
+    "packs_after_failed_pack_repaired", "packs_after_failed_pack_existing",
+    "histories_solo", "histories_embedded", "histories_two_runs", "histories_failure_at_non_first_field",
+    "histories_variant_g", "histories_variant_d", "histories_variant_nv",
 )
 RULE = {
     "quick": "Part A (exhaustive): every composition of 8 bits (128) as a class of consecutive Bits fields under the three "
@@ -55,7 +65,9 @@ RULE = {
              "compositions of 16,24,32,40,48,56,64 (few 72..128) bits in shapes solo/emb (a=Int(1);run;z=Data(2))/vec (Ints "
              "around)/two/two_emb (two runs separated by a non-Bits field), option sets rotating; unpack of walking ones/zeros, "
              "per-field all-ones and complements, random patterns; pack as in A for sampled fields; every truncation inside a run; "
-             "non-integer values.  Part C: ~1000 runs with total not a multiple of 8 (all compositions of 1..7 bits, samples of "
+             "non-integer values; multi-packet histories (pack of A fails at bit field j holding a non-integer/unset, then fresh / "
+             "brand-new / unpacked / pre-existing / repaired packets of the same class are packed and compared with the model "
+             "of their own values; 7 templates incl. valid-fail-valid-valid interleavings) for positions j of every run.  Part C: ~1000 runs with total not a multiple of 8 (all compositions of 1..7 bits, samples of "
              "9..63 incl. totals = 4 mod 8; alone, embedded, first/second/both of two runs, split 9,4|Int|3) must raise "
              "ByteBoundaryError at class definition.  One evaluation = one library call sequence compared with the model "
              "(one unpack, one pack scenario, one truncation, one definition).  Non-trivial: the run has >= 2 fields (a "
@@ -74,6 +86,8 @@ ASSUMPTIONS = [
     "a Python bool is an integer (True packs as 1); it is not used as a 'non-integer' value",
     "non-integer values (None, float, str, bytes, list, tuple, dict, complex) on pack: only judged that nothing but PacketError "
     "escapes and that no bytes are returned",
+    "a pack that fails because a bit field is UNSET (slot deleted) is only required not to disturb later packs; which "
+    "exception it raises, or whether it returns bytes, is counted and not judged",
     "truncated input inside a run is judged only as 'must raise PacketError' (which field/offset it names is C12's business)",
     "the non-Bits fields around a run (Int, Data of fixed size) always get valid in-range values; they are compared too, "
     "only to detect a run that reads/writes a wrong number of bytes",
@@ -645,7 +659,149 @@ def op_define_bad(ctx, d, op):
     return False
 
 
-OPS = {"unpack": op_unpack, "pack": op_pack, "truncated": op_truncated, "nonint": op_nonint, "define_bad": op_define_bad}
+class _Unset:
+    def __repr__(self):
+        return "<unset>"
+
+
+UNSET = _Unset()
+
+
+def _hval(v):
+    """value of a history step: an integer / bytes, or {'nonint': index into NONINTS}."""
+    if isinstance(v, dict) and "nonint" in v:
+        return NONINTS[v["nonint"]][1]
+    return v
+
+
+def op_history(ctx, d, op):
+    """A history over one or more packets of the same class:
+        make (keywords / attributes / unpack), set, unset, pack expecting success, pack expecting failure.
+    Every successful pack is compared with the arithmetic model of THAT packet's own values - whatever
+    happened to other packets (or to this one) before, in particular a pack that failed part-way through
+    a run.  A failing pack must leave the packet's own fields reading what was assigned."""
+    run = ctx.run
+    cls = d.cls
+    pk, mv = {}, {}
+    fails = 0            # failed packs so far in this history
+    trace = []
+    for si, st in enumerate(op["steps"]):
+        do = st["do"]
+        pid = st["id"]
+        if do == "make":
+            try:
+                if st["mode"] == "unpack":
+                    pk[pid] = cls.unpack(st["raw"])
+                    mv[pid] = model_decode(d, st["raw"])
+                else:
+                    vals = {n: _hval(v) for n, v in st["values"].items()}
+                    if st["mode"] == "kw":
+                        pk[pid] = cls(**vals)
+                    else:
+                        pk[pid] = cls()
+                        for n, v in vals.items():
+                            setattr(pk[pid], n, v)
+                    mv[pid] = default_values(d)
+                    mv[pid].update(vals)
+            except RecursionError:
+                raise
+            except Exception as e:
+                what = "building a packet raised"
+                if fails:
+                    what = "building/parsing a packet raised after a failed pack of another packet of the same class"
+                run.violation(what, ctx.witness(d, op, step=si, raised=err_text(e), trace=trace))
+                return False
+            trace.append("%d make %s" % (si, pid))
+        elif do == "set":
+            v = _hval(st["value"])
+            setattr(pk[pid], st["field"], v)
+            mv[pid][st["field"]] = v
+            trace.append("%d set %s.%s" % (si, pid, st["field"]))
+        elif do == "unset":
+            try:
+                delattr(pk[pid], st["field"])
+            except AttributeError:
+                pass
+            mv[pid][st["field"]] = UNSET
+            trace.append("%d unset %s.%s" % (si, pid, st["field"]))
+        elif do == "pack" and st["expect"] == "fail":
+            status, res = ctx.lib_pack(pk[pid])
+            has_unset = any(v is UNSET for v in mv[pid].values())
+            trace.append("%d pack %s -> %s" % (si, pid, status))
+            if status == "ok":
+                if has_unset:
+                    run.count("pack_with_unset_field_returned_bytes")      # not fixed by the statement
+                else:
+                    run.violation("pack returned bytes although a bit field holds a non-integer value",
+                                  ctx.witness(d, op, step=si, got=b2j(res) if isinstance(res, bytes) else repr(res), trace=trace))
+                    return False
+            elif status == "exception" and not has_unset:
+                run.violation("non-integer value in a bit field: an exception other than PacketError escaped pack()",
+                              ctx.witness(d, op, step=si, raised=err_text(res), trace=trace))
+                return False
+            else:
+                fails += 1
+                run.count("failed_packs_observed")
+                if status == "exception":
+                    run.count("failed_packs_unset_field_other_exception")  # unset slot: which exception is not judged here
+            # the failing pack must not change what the packet's own fields read
+            changed = []
+            for n in d.names:
+                want = mv[pid][n]
+                if want is UNSET:
+                    continue
+                now = getattr(pk[pid], n, UNSET)
+                if now is UNSET or type(now) is not type(want) or now != want:
+                    changed.append({"field": n, "assigned": repr(want), "after_failed_pack": repr(now)})
+            if changed:
+                run.violation("a failing pack() changed the value of a field of the packet",
+                              ctx.witness(d, op, step=si, changed=changed[:8], trace=trace))
+                return False
+            run.count("own_fields_after_failed_pack_checked")
+        elif do == "pack":
+            want = model_encode(d, mv[pid])
+            status, got = ctx.lib_pack(pk[pid])
+            trace.append("%d pack %s -> %s" % (si, pid, status))
+            if status != "ok":
+                what = "pack of integer values raised"
+                if fails:
+                    what = "pack of integer values raised after an earlier failed pack (of this or another packet of the same class)"
+                run.violation(what, ctx.witness(d, op, step=si, raised=err_text(got), want=b2j(want), trace=trace))
+                return False
+            if got != want:
+                diag = []
+                if isinstance(got, bytes) and len(got) == len(want):
+                    dec = model_decode(d, got)
+                    for n in d.names:
+                        exp = reduced(d, n, mv[pid][n])
+                        if dec[n] != exp:
+                            diag.append({"field": n, "assigned": mv[pid][n], "want_bits": exp, "got_bits": dec[n]})
+                what = "pack: bytes differ from sum((v mod 2^w) << shift) as a big-endian integer"
+                if fails:
+                    what = ("pack after a failed pack: bytes differ from the model of the packet's own values "
+                            "(bits left over from the failed pack of a packet altered the fields of this one)")
+                run.violation(what, ctx.witness(d, op, step=si, packet=pid, got=b2j(got), want=b2j(want),
+                                                values=mv[pid], damaged_fields=diag[:8], trace=trace))
+                return False
+            run.count("history_packs_compared")
+            if fails:
+                run.count("packs_after_failed_pack_compared")
+                run.count("packs_after_failed_pack_%s" % st.get("role", "other"))
+            # own fields unchanged by the successful pack too
+            for n in d.names:
+                now = getattr(pk[pid], n, UNSET)
+                if now is UNSET or now != mv[pid][n]:
+                    run.violation("pack() changed the value of a field of the packet",
+                                  ctx.witness(d, op, step=si, field=n, assigned=mv[pid][n], after_pack=repr(now), trace=trace))
+                    return False
+        else:
+            raise ValueError(st)
+    run.count("histories_run")
+    return True
+
+
+OPS = {"unpack": op_unpack, "pack": op_pack, "truncated": op_truncated, "nonint": op_nonint, "define_bad": op_define_bad,
+       "history": op_history}
 
 
 # =============================================================================================
@@ -773,7 +929,7 @@ def nontrivial(d):
 
 
 def exercise(ctx, rng, d, unpack_random=8, max_fields=6, all_patterns=False, exhaustive_values=False, nonint_n=1,
-             walking_zeros="all", roundtrip_every=1, full_every=1, value_subset=None):
+             walking_zeros="all", roundtrip_every=1, full_every=1, value_subset=None, hist_positions=4, hist_templates=1):
     """All operation kinds on one defined class. Returns number of evaluations."""
     run = ctx.run
     nt = nontrivial(d)
@@ -922,6 +1078,128 @@ def exercise(ctx, rng, d, unpack_random=8, max_fields=6, all_patterns=False, exh
         op_nonint(ctx, d, op)
         n += 1
     run.case(key="nonint|" + key, nontrivial=nt, n=n)
+    if ctx.stop():
+        return
+
+    # ---- histories: a failed pack of one packet, then packs of other packets of the class -----------
+    n = run_histories(ctx, rng, d, hist_positions, hist_templates)
+    run.case(key="history_failed_pack|" + key, nontrivial=nt, n=n)
+
+
+HISTORY_TEMPLATES = ("fresh_kw", "fresh_default", "from_unpack", "repair", "interleave", "existing", "two_failures")
+
+
+def make_history(rng, d, target, template, bad):
+    """Steps of one history. `target` = name of the bit field that holds the bad value in packet A; A's other bit
+    fields are all-ones (so anything left behind by the failed pack is visible), B's values are zero/small.
+    bad = {'nonint': i} or 'unset'."""
+    run_segs = [s for s in d.segs if s[0] == "run"]
+
+    def small_bits():
+        style = rng.randrange(3)
+        out = {}
+        for n, (w, shift, r, dv) in d.bits.items():
+            out[n] = 0 if style == 0 else (rng.getrandbits(1) if style == 1 else rng.getrandbits(w) & rng.getrandbits(w))
+        return out
+
+    def a_values(with_bad):
+        vals = neighbours(rng, d, "ones")
+        vals.update(nonbits_values(rng, d))
+        if with_bad and bad != "unset":
+            vals[target] = bad
+        return vals
+
+    def make_a(pid="A"):
+        steps = [{"do": "make", "id": pid, "mode": rng.choice(["kw", "attr"]), "values": a_values(True)}]
+        if bad == "unset":
+            steps.append({"do": "unset", "id": pid, "field": target})
+        return steps
+
+    def b_fresh(pid="B", mode=None):
+        vals = small_bits()
+        vals.update(nonbits_values(rng, d))
+        return [{"do": "make", "id": pid, "mode": mode or rng.choice(["kw", "attr"]), "values": vals}]
+
+    def b_default(pid="B"):
+        # brand-new packet: only the non-Bits fields are given, the bit fields keep their (declared) defaults
+        return [{"do": "make", "id": pid, "mode": rng.choice(["kw", "attr"]), "values": nonbits_values(rng, d)}]
+
+    def b_unpacked(pid="B"):
+        ints = []
+        for sgm in run_segs:
+            total = sgm[2] * 8
+            ints.append(rng.choice([0, 1, rng.getrandbits(total) & rng.getrandbits(total)]))
+        return [{"do": "make", "id": pid, "mode": "unpack", "raw": raw_with_runs(rng, d, ints)}]
+
+    fail_a = {"do": "pack", "id": "A", "expect": "fail"}
+
+    def ok(pid, role):
+        return {"do": "pack", "id": pid, "expect": "ok", "role": role}
+
+    repair = {"do": "set", "id": "A", "field": target, "value": rng.choice([0, 1, 0, rng.getrandbits(d.bits[target][0])])}
+    if template == "fresh_kw":
+        steps = make_a() + [fail_a] + b_fresh() + [ok("B", "fresh"), ok("B", "fresh_again")]
+    elif template == "fresh_default":
+        steps = make_a() + [fail_a] + b_default() + [ok("B", "brand_new_defaults"), ok("B", "brand_new_again")]
+    elif template == "from_unpack":
+        steps = make_a() + [fail_a] + b_unpacked() + [ok("B", "unpacked")]
+    elif template == "repair":
+        steps = make_a() + [fail_a, repair, ok("A", "repaired"), ok("A", "repaired_again")]
+    elif template == "interleave":
+        steps = b_fresh() + [ok("B", "before")] + make_a() + [fail_a, ok("B", "existing"), ok("B", "existing_again"),
+                                                                repair, ok("A", "repaired")]
+    elif template == "existing":
+        steps = b_unpacked() + b_fresh("C") + make_a() + [fail_a, ok("B", "unpacked_existing"), fail_a, ok("C", "existing")]
+    elif template == "two_failures":
+        steps = make_a() + [fail_a, fail_a] + b_fresh() + [ok("B", "fresh"), fail_a, repair, ok("A", "repaired"), ok("B", "existing")]
+    else:
+        raise ValueError(template)
+    return {"kind": "history", "template": template, "target": target, "steps": steps}
+
+
+def run_histories(ctx, rng, d, max_positions, templates_per_position):
+    """Failed pack of one packet followed by packs of others, for the positions j of every run (j > 0 leaves earlier
+    fields of the run already processed when the pack fails)."""
+    run = ctx.run
+    run_segs = [s for s in d.segs if s[0] == "run"]
+    targets = []
+    for ri, seg in enumerate(run_segs):
+        members = seg[1]
+        js = list(range(1, len(members)))
+        if len(js) > max_positions:
+            keep = {js[-1]}                       # last field: every earlier field of the run was processed
+            while len(keep) < max_positions:
+                keep.add(rng.choice(js))
+            js = sorted(keep)
+        if not js or rng.random() < 0.15:
+            js = [0] + js                         # first field of the run: nothing processed before the failure
+        for j in js:
+            targets.append((ri, j, members[j][0]))
+    n = 0
+    t0 = rng.randrange(len(HISTORY_TEMPLATES))
+    for ti, (ri, j, fname) in enumerate(targets):
+        for rep_ in range(templates_per_position):
+            template = HISTORY_TEMPLATES[(t0 + ti * templates_per_position + rep_) % len(HISTORY_TEMPLATES)]
+            bad = "unset" if rng.random() < 0.12 else {"nonint": rng.randrange(len(NONINTS))}
+            op = make_history(rng, d, fname, template, bad)
+            ok = op_history(ctx, d, op)
+            n += 1
+            if ok:
+                run.count("histories_%s" % ("solo" if d.shape == "solo" else "embedded"))
+                if len(d.runs) == 2:
+                    run.count("histories_two_runs")
+                    run.count("histories_two_runs_failure_in_run_%d" % ri)
+                run.count("histories_variant_%s" % d.variant)
+                if j > 0:
+                    run.count("histories_failure_at_non_first_field")
+                if template not in ctx.covered:
+                    ctx.covered.add(template)
+                    run.cover("history_templates", template)
+                if j > 0 and template == "interleave":
+                    ctx.sample("history", d, op)
+            elif ctx.stop():
+                return n
+    return n
 
 
 def _full_values(d, op):
@@ -951,7 +1229,7 @@ def part_a(ctx, rng, shard, nshards):
     for variant in VARIANTS:
         decls = [build_decl("A8_%s_%03d" % (variant, m), "solo", [composition_from_mask(8, m)], variant) for m in masks]
         for d in define_batch(ctx, decls, "file"):
-            exercise(ctx, rng, d, all_patterns="with_pack", max_fields=8, nonint_n=2)
+            exercise(ctx, rng, d, all_patterns="with_pack", max_fields=8, nonint_n=2, hist_positions=8, hist_templates=3)
             run.count("partA_classes")
             ctx.anchors.pause()
             if ctx.stop():
@@ -962,7 +1240,7 @@ def part_a(ctx, rng, shard, nshards):
         shape = ("emb", "vec", "emb")[i % 3]
         decls.append(build_decl("A8e_%03d" % m, shape, [composition_from_mask(8, m)], VARIANTS[(i + m) % 3]))
     for d in define_batch(ctx, decls, "file"):
-        exercise(ctx, rng, d, unpack_random=16, max_fields=8)
+        exercise(ctx, rng, d, unpack_random=16, max_fields=8, hist_positions=8, hist_templates=3)
         run.count("partA_embedded_classes")
         ctx.anchors.pause()
         if ctx.stop():
@@ -1025,7 +1303,7 @@ def part_b(ctx, rng, count, deadline, thorough, batch=8):
         mode = "exec" if (done // batch) % 5 == 4 else "file"
         for d in define_batch(ctx, decls, mode):
             if thorough:
-                exercise(ctx, rng, d, unpack_random=8, max_fields=6, roundtrip_every=2, full_every=2)
+                exercise(ctx, rng, d, unpack_random=8, max_fields=6, roundtrip_every=2, full_every=2, hist_positions=6)
             else:
                 exercise(ctx, rng, d, unpack_random=4, max_fields=3, walking_zeros="boundaries", roundtrip_every=4, full_every=3,
                          value_subset=10)
@@ -1128,7 +1406,7 @@ def part_t16(ctx, rng, shard, nshards, deadline):
                 shape = ("emb", "vec")[(m // nshards // 8) % 2]
             decls.append(build_decl("T16_%05d" % m, shape, [composition_from_mask(16, m)], "g"))
         for d in define_batch(ctx, decls, "exec"):
-            exercise(ctx, rng, d, unpack_random=8, max_fields=16, full_every=2)
+            exercise(ctx, rng, d, unpack_random=8, max_fields=16, full_every=2, hist_positions=16)
             run.count("partT_classes_16_bits")
             if run.counters["partT_classes_16_bits"] == 30:
                 ctx.anchors.pause()
@@ -1146,7 +1424,7 @@ def part_t16(ctx, rng, shard, nshards, deadline):
             run.extra["partT_generated_sample_time_capped"] = 1
             break
         for d in define_batch(ctx, decls[b0:b0 + 40], "file"):
-            exercise(ctx, rng, d, unpack_random=8, max_fields=16, full_every=2)
+            exercise(ctx, rng, d, unpack_random=8, max_fields=16, full_every=2, hist_positions=16)
             run.count("partT_classes_16_bits_generated")
             d.cls = None
             if ctx.stop():
